@@ -199,6 +199,13 @@ def systematic_flat():
     cases.append(case(F3s, cross([1, 2, 3], [3]), "A", ["width3", "crossed-window", "preamble2"], "sys-w3-small-x3"))
     cases.append(case(F3s, cross([1, 3], [3]), "A", ["width3", "crossed-window", "preamble2"], "sys-w3-small-x3-a"))
     cases.append(case(F3s, cross([1, 2, 3], [2, 3]), "A", ["width3", "crossed-window", "preamble2"], "sys-w3-small-x23"))
+    # ... and with a three-level basic factor (3*2 differs from 3**2 preamble combinations)
+    F3t = [basic("a", 3)]
+    F3t.append(derived(F3t, "w3", [1], "window", width=3, table=eq_table(F3t, [1], 3)))
+    cases.append(case(F3t, cross([1, 2], [2]), "A", ["width3", "crossed-window", "preamble2", "three-levels"], "sys-w3-a3-x"))
+    F3u = [basic("a", 3), basic("b", 2)]
+    F3u.append(derived(F3u, "w3", [2], "window", width=3, table=eq_table(F3u, [2], 3)))
+    cases.append(case(F3u, cross([1, 2, 3], [3]), "A", ["width3", "crossed-window", "preamble2", "three-levels"], "sys-w3-a3b-x"))
     F4 = stroop()
     F4.append(derived(F4, "cc", [3, 4], "within", table=eq_table(F4, [3, 4])))   # within-trial of a transition: complex
     cases.append(case(F4, cross([1, 2, 3, 4, 5], [1, 2]), "A", ["derived-of-derived"], "sys-dd-uncrossed"))
